@@ -9,6 +9,7 @@ CONSTANTS
   RemotePrunes <- MC_RemotePrunesQ
   Policies = {"auto", "explicit"}
   ResetHeights <- MC_ResetHeights
+  Defect_ReadBeforePermit = FALSE
   MaxPub = 1
   MaxPrune = 0
   MaxImp = 1
@@ -22,6 +23,7 @@ INVARIANTS
   TypeOK
   CursorIsMaxOfAcked
   OnlyOwnTopicAcked
+  ForeignNeverPastCheck
 PROPERTIES
   MC_CursorMonotone
   MC_ForeignTopicRejected
